@@ -93,7 +93,7 @@ def oracle(case, line):
     """Property C08 on ONE implementation output line -> list of (klass, text)."""
     if line == "REJECT":
         return []
-    if line.startswith("HANG"):
+    if line.startswith("HANG") or line.startswith("CRASH rc=3") or line.startswith("CRASH TIMEOUT"):
         return [("hang", "the implementation did not finish this case within the per-case time limit")]
     if not line.startswith("OK "):
         if line.startswith("ERR:internal") and zero_hash_case(case):
